@@ -506,3 +506,104 @@ impl Debugger {
         self.with_disabled_brkpts(|dbg| dbg.call_fn(fn_name, arguments))
     }
 }
+
+/// Verification hooks (add-only): reach the private argument marshalling.
+#[cfg(feature = "verif")]
+pub mod verif_hooks {
+    use super::*;
+    use crate::debugger::debugee::dwarf::r#type::ScalarType;
+
+    /// Parameter type descriptions the harness can build without DWARF.
+    #[derive(Clone, Debug)]
+    pub enum VerifTy {
+        Scalar {
+            encoding: Option<u8>,
+            byte_size: Option<u64>,
+        },
+        Pointer,
+        Structure,
+        CEnum,
+    }
+
+    fn build(t: &VerifTy) -> ComplexType {
+        let decl = match t {
+            VerifTy::Scalar {
+                encoding,
+                byte_size,
+            } => TypeDeclaration::Scalar(ScalarType {
+                namespaces: Default::default(),
+                name: Some("verif_scalar".to_string()),
+                byte_size: *byte_size,
+                encoding: encoding.map(gimli::DwAte),
+            }),
+            VerifTy::Pointer => TypeDeclaration::Pointer {
+                namespaces: Default::default(),
+                name: Some("*verif".to_string()),
+                target_type: None,
+            },
+            VerifTy::Structure => TypeDeclaration::Structure {
+                namespaces: Default::default(),
+                name: Some("verif_struct".to_string()),
+                byte_size: Some(8),
+                members: vec![],
+                type_params: Default::default(),
+            },
+            VerifTy::CEnum => TypeDeclaration::CStyleEnum {
+                namespaces: Default::default(),
+                name: Some("verif_enum".to_string()),
+                byte_size: Some(4),
+                discr_type: None,
+                enumerators: Default::default(),
+            },
+        };
+        ComplexType::verif_single(decl)
+    }
+
+    /// Numbering of `CallError` variants used by the Coq model (Model/Call.v E_*).
+    pub fn verif_error_code(e: &CallError) -> u8 {
+        match e {
+            CallError::InvalidArgumentCount(_, _) => 1,
+            CallError::TooManyArguments => 2,
+            CallError::UnsupportedLiteral(_) => 3,
+            CallError::UnknownArgumentType(_) => 4,
+            CallError::LiteralCast(_, _) => 5,
+            CallError::UnsupportedArgumentType(_, _) => 6,
+            CallError::FunctionNotFoundOrTooMany => 7,
+            CallError::Mmap => 8,
+            CallError::Munmap => 9,
+            CallError::Jmp => 10,
+            // variants added later (e.g. a callee that did not return)
+            #[allow(unreachable_patterns)]
+            _ => 11,
+        }
+    }
+
+    /// `liter_to_arg_bin_repr` on a synthetic parameter type.
+    pub fn verif_liter_to_arg(no: usize, lit: &Literal, t: &VerifTy) -> Result<u64, u8> {
+        let ct = build(t);
+        liter_to_arg_bin_repr(no, lit, &ct)
+            .map(|(v, _)| v)
+            .map_err(|e| verif_error_code(&e))
+    }
+
+    /// `CallArgs::new` on synthetic parameter types: the register images in argument order.
+    pub fn verif_call_args(lits: &[Literal], tys: &[VerifTy]) -> Result<Vec<u64>, u8> {
+        let params: Vec<Rc<ComplexType>> = tys.iter().map(|t| Rc::new(build(t))).collect();
+        CallArgs::new(lits, &params)
+            .map(|a| a.0.iter().map(|(v, _)| *v).collect())
+            .map_err(|e| verif_error_code(&e))
+    }
+
+    /// `CallArgs::prepare_registers` applied to a register file: (rdi, rsi, rdx, rcx, r8, r9) afterwards.
+    pub fn verif_prepare_registers(
+        lits: &[Literal],
+        tys: &[VerifTy],
+        regs: nix::libc::user_regs_struct,
+    ) -> Result<nix::libc::user_regs_struct, u8> {
+        let params: Vec<Rc<ComplexType>> = tys.iter().map(|t| Rc::new(build(t))).collect();
+        let args = CallArgs::new(lits, &params).map_err(|e| verif_error_code(&e))?;
+        let mut map: RegisterMap = regs.into();
+        args.prepare_registers(&mut map);
+        Ok(map.into())
+    }
+}
